@@ -2238,11 +2238,14 @@ LEVEL_TEXT = ('Runtime monitoring: seeded operation histories (state-aware gener
               'objects and on a list-of-pairs reference model; the complete observable state (iteration, spellings, '
               'values through several spellings, membership, len, views, dump) is compared after every operation, '
               'failed ones included; representation invariants of LinkedList (K1) and OrderedSet (K2) are evaluated '
-              'at every method boundary underneath.  Held-on-observed, not a proof: reach is the generated histories.')
+              'at every method boundary underneath.  Bulk / indirect removals (clear, popitem to empty, pop / del of '
+              'every key, clear + update) followed by re-use of the former names in the same and in other spellings and '
+              'of fresh names are driven from every start kind; objects left behind by copies are re-observed when the '
+              'other object is emptied.  Held-on-observed, not a proof: reach is the generated histories.')
 LEVEL_NOTE = ('Trusted: CPython (incl. its Unicode case tables), vp.models.cimap (list model), the tolerant dump reader in '
               'the module.  Domain: field names that are ASCII or consist of letters with one-to-one lower/upper pairs on '
               'which lower() and casefold() agree (sharp s, dotted/dotless i, final sigma are counted, not judged), values that are valid single/multi-line Deb822 values; parsed starts without duplicate '
-              'fields; order_before/after(k,k) with k absent may raise either error.')
+              'fields; order_before/after(k,k) with k absent may raise either error; which member popitem() removes is not demanded.')
 TECHNIQUE = ('runtime monitoring: history + executable list model at the public mapping interface (deciding monitor M, '
              'full state comparison after every operation incl. rejected ones); auxiliary contract/invariant monitors '
              'K1 (LinkedList) and K2 (OrderedSet) on every underlying call')
